@@ -6,7 +6,7 @@ evaluation (EDPE) of its export function over `t->type`, for every enumerator,
 independent of whether it is written as switch / nested switch / if chain.
 """
 from . import compdb
-from .prog import (AnalysisBroken, key, strip, walk, const_value, enum_name, edpe_blocks, block_nodes)
+from .prog import (AnalysisBroken, key, strip, walk, const_value, enum_name, edpe_blocks, block_nodes, tok_dkey, tok_param, resolve_key)
 from .lalr import rhs_constants
 
 CTORS = {"token_new": 0, "token_new_parent": 1, "token_prune_graft": 2}
@@ -124,7 +124,8 @@ def producible(P, tt):
 
 def classify(f, v):
     """Effect class of writer function f on token type value v."""
-    blocks = edpe_blocks(f, "t->type", v)
+    blocks = edpe_blocks(f, tok_dkey(f), v)
+    tp = tok_param(f)
     esc = None
     deleg = []
     emits = False
@@ -137,7 +138,7 @@ def classify(f, v):
             esc = esc or ("diagnostic", n["l"])
         elif c in ("exit", "abort", "_exit"):
             esc = ("terminator", n["l"])
-        elif c and c.startswith("mmd_export_token_") and "tree" not in c and any(key(a) == "t" for a in n["c"][1:]):
+        elif c and c.startswith("mmd_export_token_") and "tree" not in c and any(key(a) == tp for a in n["c"][1:]):
             deleg.append(c)
         elif c and c.startswith("mmd_export_token_tree"):
             descends = True
@@ -334,35 +335,43 @@ SIBLING_REVIEWED = {
     ("mmd_export_header_opml", "MARKER_SETEXT_1"): "ITMZ trims the Setext underline by moving `stop`, OPML by stepping `walker` back; same text range",
     ("mmd_export_header_opml", "MARKER_SETEXT_2"): "as MARKER_SETEXT_1",
 }
+# only functions that print source ranges are compared
+
+
+def _range_vars(f):
+    """Locals that carry the source range handed to the format's source printer (mmd_print_source_*)."""
+    out = set()
+    for c in f.calls():
+        if (c.get("callee") or "").startswith("mmd_print_source_") and len(c["c"]) >= 5:
+            for a in c["c"][3:5]:
+                for y in walk(a):
+                    if y["k"] == "DeclRefExpr" and y.get("dk") == "Var":
+                        out.add(y["n"])
+    return out
 
 
 def _sibling_sig(f, v, dkey):
+    """What source range does f print for token type v?  The values assigned to the range variables and the
+    arguments of the source-printer calls, in the blocks reachable for v (markup literals, nesting-level
+    bookkeeping and helper structure are deliberately ignored: they may differ or be refactored freely)."""
     import re as _re
     blocks = edpe_blocks(f, dkey, v)
+    rv = _range_vars(f)
     out = set()
     for n in block_nodes(f, blocks):
-        if n["k"] == "CallExpr" and n.get("callee"):
-            c = n["callee"]
-            if c.startswith("d_string_append") or c.startswith("print_uuid"):
-                # output of markup literals: format-specific by design; data arguments still count
-                data = [key(a) for a in n["c"][2:] if (strip(a) or {}).get("k") != "StringLiteral" and const_value(a) is None]
-                data = [d for d in data if "sizeof" not in d]
-                if data:
-                    out.add("out(%s)" % ",".join(_re.sub(r"opml|itmz", "FMT", d) for d in data))
-                continue
-            args = ",".join(_re.sub(r"opml|itmz", "FMT", key(a))[:60] for a in n["c"][1:])
-            out.add("call %s(%s)" % (_re.sub(r"opml|itmz", "FMT", c), args))
-        elif n["k"] == "BinaryOperator" and n["op"] == "=":
-            out.add("set %s=%s" % (key(n["c"][0]), key(n["c"][1])[:80]))
-        elif n["k"] == "CompoundAssignOperator":
-            out.add("set %s%s%s" % (key(n["c"][0]), n["op"], key(n["c"][1])[:80]))
+        if n["k"] == "CallExpr" and (n.get("callee") or "").startswith("mmd_print_source_"):
+            out.add("print(%s)" % ",".join(_re.sub(r"opml|itmz", "FMT", resolve_key(f, a)) for a in n["c"][3:5]))
+        elif n["k"] == "BinaryOperator" and n["op"] == "=" and key(n["c"][0]) in rv:
+            out.add("set %s=%s" % (key(n["c"][0]), resolve_key(f, n["c"][1])))
+        elif n["k"] == "CompoundAssignOperator" and key(n["c"][0]) in rv:
+            out.add("set %s%s%s" % (key(n["c"][0]), n["op"], resolve_key(f, n["c"][1])))
     return out
 
 
 def r_sibling_outline(P, chk):
     rid = "R-SIBLING"
-    chk.rule(rid, "the OPML and ITMZ outline writers (copies of one another) assign the same source ranges and call the same "
-                  "helpers for every token type; only markup literals may differ")
+    chk.rule(rid, "the OPML and ITMZ outline writers (copies of one another) print the same source ranges for every token type "
+                  "(values of the range variables and arguments of the source printer, after substituting hoisted locals)")
     uo, ui = P.units.get("opml.c"), P.units.get("itmz.c")
     if uo is None or ui is None:
         raise AnalysisBroken("opml.c / itmz.c gone")
@@ -373,6 +382,8 @@ def r_sibling_outline(P, chk):
     for a, b in pairs:
         fa, fb = uo.funcs[a], ui.funcs[b]
         dks = [key(n["c"][0]) for n in fa.walk() if n["k"] == "SwitchStmt" and key(n["c"][0]).endswith("->type")]
+        if not _range_vars(fa) and not _range_vars(fb) and not any((c.get("callee") or "").startswith("mmd_print_source_") for c in fa.calls()):
+            continue
         if not dks:
             sa, sb = _sibling_sig(fa, -1, "<none>"), _sibling_sig(fb, -1, "<none>")
             n_cells += 1
@@ -397,7 +408,7 @@ def r_sibling_outline(P, chk):
                               name, a, b, sorted(sa - sb)[:3], sorted(sb - sa)[:3]))
     chk.obl[rid][0] += n_cells
     chk.obl[rid][1] += n_cells
-    chk.floor(rid, n_cells, 500, "function x token-type cells compared")
+    chk.floor(rid, n_cells, 300, "function x token-type cells compared")
 
 
 def r_linestrip(P, chk):
